@@ -7,6 +7,19 @@ claim("C01", "DESIGN.md §5 C01",
       "the 'inputs unmodified / every container type' half is a byte-level differential test, not a theorem.",
       "Float rounding outside the proof; container semantics of scipy trusted.")
 
+claim("C13", "DESIGN.md §5 C13",
+      "Lean 4 theorems (quadratic-form preservation for every vector over any field, structure, container evaluators for every pattern string) + differential correspondence and exhaustive/symmetric-part oracle",
+      "Proved for all n and all matrices: to_upper_triangular / to_symmetric keep y'My for every vector y (any field, char 0 for the symmetric form), results are upper triangular / symmetric; "
+      "a container built with any pattern string evaluates (QUBO side at every vector, Ising side at the spin image of every binary vector) to the original value; J has zero diagonal and the pattern of Q; "
+      "non-square rejected. Model compared with the code on every run for every container kind and mixed-case/other pattern strings; input-not-mutated is a differential test.",
+      "Non-ASCII pattern strings and scipy container semantics outside the model.")
+claim("C20", "DESIGN.md §5 C20",
+      "Lean 4 theorems (scan invariant by fold induction for every visiting order; bit-pattern enumeration is a bijection onto binary vectors; optimum/count/gap/mean equal brute-force definitions) + differential correspondence and brute-force oracle",
+      "Proved for all n, Q, c: the values report() scans are exactly the QUBO values of all binary vectors (each once); the reported optimum is attained and minimal, the count is the multiplicity of the optimum, "
+      "the gap is the distance to the least value strictly above it (absent iff all values are equal), the mean is the sum over all 2^n assignments divided by 2^n; structural metrics are those of the upper-triangular form. "
+      "The model of the pinned runner-up rule is refuted in Lean (scanPinned_violates). Model compared with the code on every run; brute-force oracle in exact arithmetic.",
+      "The 1e-16 tolerance is modelled as exact equality (all generated values are exact dyadics); density compared as one correctly-rounded float division.")
+
 for _p in ["C02", "C03", "C04", "C05", "C06", "C07", "C08", "C09", "C10", "C11", "C12", "C13", "C14", "C15", "C16", "C17", "C18", "C19", "C20"]:
     if _p not in CLAIMED:
         NOT_YET[_p] = "check under construction in this round (see DESIGN.md §10 order of construction); not claimed until its command exists"
